@@ -29,7 +29,10 @@ def analyse(src: Source) -> List[Report]:
         "candidate depends on the shape of the active state). Handler facts are derived from the handler classes "
         "(velocity/position writes in the send_out_state closure, position/velocity reads in the send_event_time closure "
         "outside asserts/log calls). R8.5: must-analysis over send_event_time;send_out_state of every concrete handler: "
-        "every time-slice or unit-field write is preceded on all paths by storing the in-state of this event.")
+        "every time-slice or unit-field write is preceded on all paths by storing the in-state of this event. R6.3/R6.4/R6.6 "
+        "(shared with C06): a trashed candidate stays dead in both schedulers -- events are stored with the handler's "
+        "current counter, trashing increments it, the root is discarded iff current > stored, overflow deletes before "
+        "resetting, pickling keeps the stored counters.")
     rep.assume("any pending tagger may commit next; every kinematics-sensitive in-state contains the active unit (true "
                "for all in-state taggers of the package: their in-states are generated from the active state)")
     prog = Program(src)
@@ -59,6 +62,12 @@ def analyse(src: Source) -> List[Report]:
         from ..core import AnalysisError
         raise AnalysisError(f"handler fact derivation lost its anchors: {n_sensitive} sensitive, {n_traj} "
                             f"trajectory-changing handlers (13 / 15 on the pinned tree)")
+    # a trashed candidate must stay dead: lazy-deletion protocol of the schedulers (shared with C06), including across
+    # counter overflow and pickling -- otherwise a stale candidate survives although the tagger lists trash it
+    from ..cfront import CUnit
+    from .c06 import HEAP_C, check_heap_scheduler, check_list_scheduler
+    check_heap_scheduler(src, rep, CUnit(src, HEAP_C))
+    check_list_scheduler(src, rep)
     rep.unit("config_files", len(cfgs))
     rep.unit("handler_classes", len(handlers))
     rep.extra["states"] = states
